@@ -277,7 +277,7 @@ func runC20(c *Ctx, w *World, r *Report) {
 						continue
 					}
 					rfacts = append(rfacts, iv.Facts...)
-					if iv.First != 0 || iv.Step != 1 {
+					if !iv.FirstConst || iv.First != 0 || iv.Step != 1 {
 						miss = append(miss, fmt.Sprintf("enumeration from 0 in steps of 1 (found first=%d step=%d) at %s", iv.First, iv.Step, w.InstrPos(rc)))
 					}
 					if !iv.HasN {
